@@ -79,7 +79,7 @@ def gen_emph(tier):
     yield from emph_docs(5 if tier == "quick" else 7)
 
 
-NESTED_TAG_ALPHABET = ["[", "](x)", "<u:v>", "*", "*a", "**", "~~", "~~a", "_", " "]
+NESTED_TAG_ALPHABET = ["[", "](x)", "<ab:c>", "*", "*a", "**", "~~", "~~a", "_", " "]
 
 
 def gen_emph_links(tier):
@@ -89,7 +89,7 @@ def gen_emph_links(tier):
     for n in range(1, k + 1):
         for parts in itertools.product(NESTED_TAG_ALPHABET, repeat=n):
             d = "".join(parts)
-            if "<u:v>" in d and "[" in d:
+            if "<ab:c>" in d and "[" in d:
                 yield d
 
 
